@@ -10,6 +10,7 @@ package container
 //@
 //@ // ---- C17: an entry is added only under the CID of its bytes and only after verification -----------------
 //@ func (Reader).addToken
+//@   ensures [C09] total: true
 //@   requires ctn != nil && modelsWF()
 //@   use node_sizes, node_map_children
 //@   ensures [C17] added: result == nil ==> has(ctn, ucanCid(bytes(data))) && genericVerified(decodeWith(dagcbor.Decode, bytes(data)), ctn[ucanCid(bytes(data))])
@@ -18,11 +19,13 @@ package container
 //@   assigns ctn
 //@
 //@ func (Reader).GetToken
+//@   ensures [C09] total: true
 //@   ensures [C17] found: result1 == nil ==> has(ctn, cid) && result0 == ctn[cid]
 //@   ensures [C17] missing: !has(ctn, cid) ==> result1 != nil
 //@   assigns [C20] nothing
 //@ // the delegation.Loader shape: no state change, a token whenever err == nil
 //@ func (Reader).GetDelegation
+//@   ensures [C09] total: true
 //@   requires wfReader(ctn)
 //@   ensures [C17,C01] loader: result1 == nil ==> result0 != nil && has(ctn, cid) && box(result0) == ctn[cid]
 //@   assigns [C20] nothing
@@ -36,6 +39,7 @@ package container
 //@ // the naming of the outcome as a function of the content is assumed (determinism of the decoder); the body is
 //@ // verified: all-or-nothing, and every entry of the token list went through addToken (verified, under its true CID)
 //@ func FromCborReader
+//@   ensures [C09] total: true
 //@   requires r != nil && modelsWF()
 //@   use node_sizes, node_map_children, node_list_children
 //@   assumes result1 == cborErr(content(r))
@@ -52,6 +56,7 @@ package container
 //@     forall k cid.Cid :: {has(ctn, k)} has(ctn, k) ==> (exists data string :: {ucanCid(data)} k == ucanCid(data) && genericVerified(decodeWith(dagcbor.Decode, data), ctn[k]))
 //@ // the CAR reader: a range-over-func loop over the block iterator (any blocks, in any number); every block goes through addToken
 //@ func FromCarReader
+//@   ensures [C09] total: true
 //@   requires r != nil && modelsWF()
 //@   use node_sizes, node_map_children
 //@   assumes result1 == carErr(content(r))
@@ -63,21 +68,27 @@ package container
 //@   ensures [C17,C18] nofault: result1 == nil ==> yielderrs == 0
 //@   loop 0: invariant ctn != nil && fresh(ctn) && labelled(ctn) && yielderrs == 0
 //@ func FromCbor
+//@   ensures [C09] total: true
 //@   requires modelsWF()
 //@   ensures [C17,C18] same: result1 == cborErr(bytes(data)) && (result1 == nil ==> (forall k cid.Cid :: has(result0, k) == cborHas(bytes(data), k)))
 //@ func FromCborBase64Reader
+//@   ensures [C09] total: true
 //@   requires r != nil && modelsWF()
 //@   ensures [C17,C18] same: result1 == cborErr(b64dec(content(r))) && (result1 == nil ==> (forall k cid.Cid :: has(result0, k) == cborHas(b64dec(content(r)), k)))
 //@ func FromCborBase64
+//@   ensures [C09] total: true
 //@   requires modelsWF()
 //@   ensures [C17,C18] same: result1 == cborErr(b64dec(bytes(data))) && (result1 == nil ==> (forall k cid.Cid :: has(result0, k) == cborHas(b64dec(bytes(data)), k)))
 //@ func FromCar
+//@   ensures [C09] total: true
 //@   requires modelsWF()
 //@   ensures [C17,C18] same: result1 == carErr(bytes(data)) && (result1 == nil ==> (forall k cid.Cid :: has(result0, k) == carHas(bytes(data), k)))
 //@ func FromCarBase64Reader
+//@   ensures [C09] total: true
 //@   requires r != nil && modelsWF()
 //@   ensures [C17,C18] same: result1 == carErr(b64dec(content(r))) && (result1 == nil ==> (forall k cid.Cid :: has(result0, k) == carHas(b64dec(content(r)), k)))
 //@ func FromCarBase64
+//@   ensures [C09] total: true
 //@   requires modelsWF()
 //@   ensures [C17,C18] same: result1 == carErr(b64dec(bytes(data))) && (result1 == nil ==> (forall k cid.Cid :: has(result0, k) == carHas(b64dec(bytes(data)), k)))
 //@
@@ -121,13 +132,14 @@ package container
 //@   assigns br, rdState(box(br)), delivered(box(br)), failed(box(br))
 //@   loop 0: invariant true
 //@ func readCar
+//@   ensures [C09] total: true
 //@   requires r != nil
 //@   ensures [C17,C18] ok: err == nil ==> blocks != nil
 //@   assigns delivered(r), failed(r)
 //@ func readHeader
 //@   ensures [C09] shape: result1 == nil ==> result0 != nil
 //@   use node_sizes, node_list_children
-//@   loop 0: invariant it != nil && 0 <= litPos(it) && nodeKind(litNode(it)) == datamodel.Kind_List && fresh(header)
+//@   loop 0: invariant it != nil && 0 <= litPos(it) && nodeKind(litNode(it)) == datamodel.Kind_List && (header.Roots == nil || fresh(header.Roots))
 //@           decreases listLen(litNode(it)) - litPos(it)
 //@ func (Writer).ToCborBase64Writer
 //@   requires w != nil
@@ -140,6 +152,7 @@ package container
 //@
 //@ // ---- CAR framing (C09: the section size is capped before allocating; C17: block integrity) ---------------
 //@ func ldRead
+//@   ensures [C09] total: true
 //@   requires r != nil
 //@   ensures [C09] capped: result1 == nil ==> 1 <= len(result0) && len(result0) <= 33554432
 //@   ensures [C18] eof: result1 == nil ==> result0 != nil
@@ -156,6 +169,7 @@ package container
 //@   loop 1: invariant 0 <= k && k <= len(d) && wfailed(w) == old(wfailed(w))
 //@           decreases len(d) - k
 //@ func readBlock
+//@   ensures [C09] total: true
 //@   requires r != nil
 //@   ensures [C17] integrity: result1 == nil ==> (exists p cid.Prefix :: result0.c == cidOfData(p, bytes(result0.data)))
 //@   ensures [C18] nofault: result1 == nil ==> failed(box(r)) == old(failed(box(r)))
